@@ -202,6 +202,8 @@ func externals() map[string]ExtFn {
 	}
 	// ---- errors
 	e["errors.New"] = func(m *Machine, a []Value) Value { return mkErr(strArg(m, a[0])) }
+	// encoding/json.Unmarshal on the five document shapes of JSONDoc (see jsondoc.go); any other input stays unsummarised
+	e["encoding/json.Unmarshal"] = jsonUnmarshalModel
 	e["github.com/pkg/errors.New"] = e["errors.New"]
 	e["errors.Join"] = func(m *Machine, a []Value) Value {
 		var parts []Str
